@@ -435,12 +435,6 @@ PANIC_EXCEPTIONS = [
      'constant ranges ..TAG_LENGTH / TAG_LENGTH.. of a [u8; 384/8] array'),
     (r'^core::primitives::J_hash$', 'slice-op', r'^copy_from_slice$', 2,
      'constant lengths: TAG_LENGTH + SHARED_SECRET_LENGTH = 384/8'),
-    (r'^core::primitives::shuffle$', 'rem0', r'.*', 1,
-     '`% xs.len()` sits inside `for i in 0..xs.len()`: the body runs only when len > 0'),
-    (r'^core::primitives::shuffle$', 'slice-op', r'^swap$', 1,
-     'i ranges over 0..len and j = _ % len: both in bounds'),
-    (r'^core::primitives::xor_(in_place|2)$', 'bounds', r'.*', 3,
-     'const-generic arrays of LENGTH indexed by pos in 0..LENGTH'),
     (r'^data_struct::dictionary::Dict::<K, V>::insert$', 'index', r'^index_mut<std::vec::Vec<\(K, V\)>>$', 1,
      'index read from the dictionary\'s own index map (structural invariant of Dict; all writers keep it)'),
     (r'^data_struct::dictionary::Dict::<K, V>::update_key$', 'index', r'^index_mut<std::vec::Vec<\(K, V\)>>$', 1,
@@ -482,6 +476,28 @@ def discharge(ctx, F, ps):
                     return 'dominated by a length check len >= %d' % need
                 # closure: guard may live in the same closure only (params are fresh per call)
         return None
+    if ps.kind in ('rem0', 'div0') and ps.term is not None:
+        # `x % s.len()` inside `for i in 0..s.len()`: the body runs only when len > 0
+        why = loop_over_same_len(body, ps)
+        if why:
+            return why
+        return None
+    if ps.kind == 'slice-op' and ps.detail == 'swap' and ps.call is not None and len(ps.call.args) == 3:
+        c = ps.call
+        sroots = lib.roots_of(body, c.args[0])
+        oks = 0
+        for a in c.args[1:]:
+            k = index_in_bounds(body, a, sroots)
+            if k:
+                oks += 1
+        if oks == 2:
+            return 'both indices are within 0..len of the swapped slice (loop variable over 0..len / remainder by len)'
+        return None
+    if ps.kind == 'bounds' and ps.term is not None:
+        why = bounds_by_range(body, ps)
+        if why:
+            return why
+        return None
     if ps.kind == 'list-split' or (ps.kind == 'vec-op' and ps.detail == 'split_off'):
         c = ps.call
         # split_off(n) guarded by n <= len
@@ -493,6 +509,113 @@ def discharge(ctx, F, ps):
                 if edge and body.edge_dominates(edge, ps.b):
                     return 'dominated by n <= len'
         return None
+    return None
+
+
+def range_loop_var(body, op):
+    """If the operand is the loop variable of `for v in a..b`: returns (start operand, end operand) of the range."""
+    l = op_local(op)
+    if l is None:
+        return None
+    for _ in range(6):
+        ds = [d for d in body.defs().get(l, []) if d.kind == 'assign' and not d.lhs['p']]
+        if len(ds) != 1:
+            return None
+        rv = ds[0].rv
+        if rv['k'] == 'use' and is_place(rv['a']):
+            pl = op_place(rv['a'])
+            if not pl['p']:
+                l = pl['l']
+                continue
+            # _x = (_n as Some).0 where _n = Range::next(..)
+            nd = [d for d in body.defs().get(pl['l'], []) if d.kind == 'call']
+            if nd and nd[0].call.is_(r'^std::iter::Iterator::next$') and 'std::ops::Range<' in (nd[0].call.self_ty or ''):
+                sl = backward_slice(body, [nd[0].call.args[0]], follow_mutarg=False)
+                rg = [a for a in sl.aggs if a.get('adt') == 'std::ops::Range']
+                if len(rg) == 1:
+                    return rg[0]['ops'][0], rg[0]['ops'][1]
+            return None
+        return None
+    return None
+
+
+def len_roots(body, op):
+    c = lib.classify_scalar(body, op)
+    return c[1] if c[0] == 'len' else None
+
+
+def loop_over_same_len(body, ps):
+    """rem0 / div0 assert whose divisor is len(x), inside a loop `for _ in 0..len(x)`."""
+    cond = ps.term['cond']
+    _, d = lib.resolve_copy(body, op_local(cond)) if is_place(cond) else (None, None)
+    if d is None or d.kind != 'assign' or d.rv['k'] != 'bin' or d.rv['op'] != 'Eq':
+        return None
+    div = d.rv['a'] if d.rv['b'].get('c', {}).get('v') == 0 else d.rv['b']
+    dr = len_roots(body, div)
+    if not dr:
+        return None
+    for c in body.calls(r'^std::iter::Iterator::next$'):
+        if 'std::ops::Range<' not in (c.self_ty or ''):
+            continue
+        sl = backward_slice(body, [c.args[0]], follow_mutarg=False)
+        rg = [a for a in sl.aggs if a.get('adt') == 'std::ops::Range']
+        if len(rg) != 1:
+            continue
+        er = len_roots(body, rg[0]['ops'][1])
+        start = lib.classify_scalar(body, rg[0]['ops'][0])
+        if er and (er & dr) and start == ('const', 0):
+            t = body.term(c.target) if c.target is not None else None
+            if t and t['k'] == 'switch':
+                some = [bb for v, bb in t['cases'] if v == 1]
+                if some and body.edge_dominates((c.target, some[0]), ps.b):
+                    return 'divisor is len(x) and the site is inside `for _ in 0..len(x)`: the body runs only when len > 0'
+    return None
+
+
+def index_in_bounds(body, op, sroots):
+    """Index operand is a loop variable over 0..len(slice) or a remainder by len(slice)."""
+    r = range_loop_var(body, op)
+    if r is not None:
+        er = len_roots(body, r[1])
+        if er and (er & sroots) and lib.classify_scalar(body, r[0]) == ('const', 0):
+            return True
+    l = op_local(op)
+    if l is None:
+        return False
+    cur, d = lib.resolve_copy(body, l)
+    if d is not None and d.kind == 'assign' and d.rv['k'] == 'bin' and d.rv['op'] == 'Rem':
+        er = len_roots(body, d.rv['b'])
+        if er and (er & sroots):
+            return True
+    return False
+
+
+def bounds_by_range(body, ps):
+    """BoundsCheck `idx < N` where idx is the loop variable of `for idx in 0..N` with the same N."""
+    cond = ps.term['cond']
+    if not is_place(cond):
+        return None
+    _, d = lib.resolve_copy(body, op_local(cond))
+    if d is None or d.kind != 'assign' or d.rv['k'] != 'bin' or d.rv['op'] != 'Lt':
+        return None
+    idx, ln = d.rv['a'], d.rv['b']
+    r = range_loop_var(body, idx)
+    if r is None:
+        return None
+    if lib.classify_scalar(body, r[0]) != ('const', 0):
+        return None
+    def cs(o):
+        if 'c' in o:
+            return o['c'].get('s')
+        _, dd = lib.resolve_copy(body, op_local(o))
+        if dd is not None and dd.kind == 'assign' and dd.rv['k'] == 'use' and 'c' in dd.rv['a']:
+            return dd.rv['a']['c'].get('s')
+        return None
+    if cs(ln) is not None and cs(ln) == cs(r[1]):
+        return 'index is the loop variable of `0..N` and the array has the same length N (%s)' % cs(ln)
+    er, lr = len_roots(body, r[1]), len_roots(body, ln)
+    if er and lr and (er & lr):
+        return 'index is the loop variable of `0..len(x)` of the indexed slice'
     return None
 
 
